@@ -20,6 +20,15 @@ CLAIMED = {
  "C07": dict(tech="TLC-judged traces of list queries on all static solvers (disjunctive Cred/Skep of Dung.tla)",
              text="All lists of 1..2 (quick) / 1..3 (thorough) arguments with repetition on all frameworks <= 3 arguments, 4-argument classes, shaped multi-component and random frameworks, both entry points; TLC evaluates the disjunctive reference value.",
              ref="5 (C07)"),
+ "C08": dict(tech="TLC-judged traces of the six dynamic solver types; logical framework carried by Store.tla inside TraceDynamic.tla",
+             text="Every update history leading to a distinct state of Store.tla (3 labels; exported by TLC) is executed on 13 solver configurations (6 types, 5 reservation factors, recompute wrapper over 4 semantics) with query rounds at random intermediate points, under CaDiCaL and under a seeded random SAT-model choice, plus random walks of 40-300 operations; TLC carries the logical framework with Store.tla's Step and judges every status and certificate against Dung.tla.",
+             ref="5 (C08), 3.6"),
+ "C09": dict(tech="TLC-judged traces of the dynamic solvers with redundant/invalid updates; results and later answers judged against Store.tla + Dung.tla",
+             text="Same histories as C08 with redundant (existing argument/attack) and invalid (unknown operand) operations inserted at random positions; TLC checks the Ok/Err result of each update against Store.tla's Step and every later answer against the framework without the rejected or redundant operation.",
+             ref="5 (C09)"),
+ "C12": dict(tech="TLC model checking of StoreImpl (Rust vectors/counters transcribed) refining Store.tla; every (state, operation) edge of Store.tla replayed into the real AAFramework and judged by TLC",
+             text="MCStoreImpl proves refinement and agreement of all public observations for all concrete states (3 labels/3 ids/4 attack slots; 2 labels/4 ids/5 slots); MCStore exports one history per abstract state (3 labels, <= 4 ids: 13k states) and all 24 outgoing operations of each are executed on AAFramework<usize> and AAFramework<String>; TraceStore compares results and the complete public projection (counts, ids, get/has, iter_attacks, iter_attacks_from/to) at every step; plus random histories.",
+             ref="5 (C12), 3.2"),
 }
 
 NOTE = ("Trusted: TLC + CommunityModules; Dung.tla (cross-checked by MCDung's theorem suite); the harness wrappers around the public extension "
